@@ -552,6 +552,61 @@ class Checkers(object):
                 return False, '%s is reachable from %s' % (f, sorted(c))
         return True, 'channel_max is set once in thread_main before run_connection, the only path to ChannelSlots::insert'
 
+    def chk_never_used_counter_cannot_overflow(self):
+        fnp = 'io_loop::channel_slots::ChannelSlots::insert_unused_channel_id'
+        root = self.hir(fnp)
+        incs = self.if_guards(root, lambda n: n.get('k') == 'AssignOp' and n['op'] in ('+=', '+'))
+        if len(incs) != 1:
+            return False, 'expected exactly one `+=`'
+        guards, n = incs[0]
+        if H.term(n['r']) != '1':
+            return False, 'increment is not 1'
+        for kind, ifn, pol in guards:
+            c = H.peel(ifn['cond'])
+            if c.get('k') == 'Binary' and c['op'] in ('<=', '<') and pol is True and H.same_place(c['l'], n['l']):
+                lt = c['l'].get('ty')
+                r = H.peel(c['r'])
+                rt = r.get('ty')
+                if r.get('k') == 'Cast':
+                    rt = H.peel(r['e']).get('ty')
+                widths = {'u8': 8, 'u16': 16, 'u32': 32, 'u64': 64, 'usize': 64}
+                if lt in widths and rt in widths and widths[rt] < widths[lt]:
+                    return True, '`%s += 1` sits on the true edge of `counter <= (%s widened to %s)`: the bound is below %s::MAX' % (H.term(n['l']), rt, lt, lt)
+                return False, 'counter type %s is not wider than the bound type %s: `+= 1` can overflow at the bound' % (lt, rt)
+        return False, '`+= 1` is not guarded by a comparison of the counter against channel_max'
+
+    def chk_reply_text_truncation_safe(self):
+        fnp = 'io_loop::connection_state::ConnectionState::client_exception'
+        root = self.hir(fnp)
+        tr = self.if_guards(root, lambda n: n.get('k') == 'MethodCall' and n['name'] == 'truncate')
+        subs = self.if_guards(root, lambda n: n.get('k') == 'AssignOp' and n['op'] in ('-=', '-'))
+        if len(tr) != 1 or len(subs) != 1:
+            return False, 'expected one truncate and one `-=`'
+        (tg, tn), (sg, sn) = tr[0], subs[0]
+        end = H.local_id(tn['args'][0])
+        if end is None or H.local_id(sn['l']) != end or H.term(sn['r']) != '1':
+            return False, 'truncate argument is not the decremented position'
+        # the decrement runs only while !is_char_boundary(end) on the same string
+        ok = False
+        for kind, ifn, pol in sg:
+            c = H.peel(ifn['cond'])
+            if c.get('k') == 'Unary' and c['op'] == 'Not' and pol is True:
+                m = H.peel(c['e'])
+                if m.get('k') == 'MethodCall' and m['name'] == 'is_char_boundary' and H.same_place(m['recv'], tn['recv']) and H.local_id(m['args'][0]) == end:
+                    ok = True
+        if not ok:
+            return False, '`end -= 1` is not inside `while !text.is_char_boundary(end)`'
+        # both sit under `text.len() > N` with end initialised to N
+        lets = [x for x in H.walk(root) if x.get('k') == 'Let' and x['pat'].get('k') == 'Bind' and x['pat']['id'] == end]
+        if not lets:
+            return False, 'position initialisation not found'
+        init = H.term(lets[0]['init'])
+        g_ok = any(H.peel(ifn['cond']).get('k') == 'Binary' and H.peel(ifn['cond'])['op'] == '>' and H.term(H.peel(ifn['cond'])['r']) == init and pol
+                   and H.peel(H.peel(ifn['cond'])['l']).get('name') == 'len' for kind, ifn, pol in tg)
+        if not g_ok:
+            return False, 'truncate is not on the true edge of `text.len() > %s`' % init
+        return True, 'end starts at %s < len, only decreases while not a char boundary (0 always is one), so truncate(end) is in range and on a boundary' % init
+
     def chk_tls_inner_restored(self):
         fnp = '<stream::native_tls::TlsHandshakeStream<S> as stream::HandshakeStream>::progress_handshake'
         if not self.ctx.has_fn(fnp):
@@ -643,16 +698,21 @@ def insert_guards(ctx):
     mk = [e for e in events if e.kind == 'callvalue' and e.callee == 'make_entry']
     if len(mk) != 1:
         raise Unrecognised('ChannelSlots::insert: make_entry call not found')
-    res = {'zero': False, 'max': False, 'guards': [g[3] for g in mk[0].guards]}
+    idt = mk[0].args[0]
+    res = {'zero': False, 'max': False, 'id': S.show(idt), 'guards': [g[3] for g in mk[0].guards]}
+    cmax = ('field', ('var', 'self', None), 'channel_max')
     for g in mk[0].guards:
-        if g[2] == 'if' and g[1] == 'else':
-            c = g[3]
-            for part in re.split(r'\s\|\|\s', c.strip('()')):
-                part = part.strip('() ')
-                if re.match(r'^channel_id == 0$|^0 == channel_id$|^channel_id < 1$', part):
+        if g[2] == 'if' and g[1] == 'else' and g[4] is not None:
+            for d in S.disjuncts(g[4]):
+                if d[0] != 'bin':
+                    continue
+                op, l, r = d[1], d[2], d[3]
+                if (op == '==' and ((l == idt and S.show(r) == '0') or (r == idt and S.show(l) == '0'))) or \
+                        (op == '<' and l == idt and S.show(r) == '1'):
                     res['zero'] = True
-                if re.match(r'^channel_id > self\.channel_max$|^self\.channel_max < channel_id$', part):
+                if (op == '>' and l == idt and S.show(r) == 'self.channel_max') or (op == '<' and r == idt and S.show(l) == 'self.channel_max'):
                     res['max'] = True
+    res['error_on_reject'] = [S.show(e.term) for e in events if e.kind == 'ret' and any(g[2] == 'if' and g[1] == 'then' for g in e.guards)]
     return res
 
 
